@@ -166,6 +166,27 @@ func checkKeyPath(fs afero.Fs, root, objectPath string) error {
 	return nil
 }
 
+// removeTree removes dir and everything below it. afero's MemMapFs.RemoveAll
+// takes its argument as a string prefix: RemoveAll("bkt") would also remove
+// "bkt2" and everything below that.
+func removeTree(fs afero.Fs, dir string) error {
+	entries, err := afero.ReadDir(fs, dir)
+	if err != nil {
+		return err
+	}
+	for _, entry := range entries {
+		child := filepath.Join(dir, entry.Name())
+		if entry.IsDir() {
+			if err := removeTree(fs, child); err != nil {
+				return err
+			}
+		} else if err := fs.Remove(child); err != nil && !os.IsNotExist(err) {
+			return err
+		}
+	}
+	return fs.Remove(dir)
+}
+
 // objectInTheWay reports whether dir (slash separated, below root) or one of
 // its ancestors below root is an object file: no key can lie below it.
 func objectInTheWay(fs afero.Fs, root, dir string) bool {
